@@ -993,9 +993,15 @@ fn real_main() {
                     }
                 }
             }
-            if thorough {
-                for v in [8usize, 16, 32] {
-                    lens.push(v * 65536 + v + 1);
+            // 16-bit accumulators: 65536 words / vectors (both tiers - a
+            // few hundred calls on 0.5..2 MiB each)
+            for v in [8usize, 16, 32] {
+                lens.push(v * 65536 + v + 1);
+                if thorough {
+                    lens.push(v * 65535);
+                    lens.push(v * 65536);
+                    lens.push(v * 65537 + 3);
+                    lens.push(v * 131072 + 1);
                 }
             }
             lens.sort();
@@ -1042,7 +1048,7 @@ fn real_main() {
                 r.sample(len as u64, || json!({"len": len, "patterns": "a match every p bytes for p in {1,2,3,8,16,32,64} at every phase < min(p,8)", "offsets": [0, 1, 9]}));
             });
             total.merge(rep);
-            bounds.insert("long".into(), json!({"lens": lens.len(), "max_len": lens.last(), "rule": "V*{255,256,257} + {0,1,V-1,V,V+1,2V+3} for V in {8,16,32,64,128}"}));
+            bounds.insert("long".into(), json!({"lens": lens.len(), "max_len": lens.last(), "rule": "V*{255,256,257} + {0,1,V-1,V,V+1,2V+3} for V in {8,16,32,64,128}; V*65536+V+1 for V in {8,16,32} (thorough: also V*{65535,65536,65537,131072})"}));
         }
         // Long haystacks with ONE match near either end (or none), at the
         // lengths where code gated on a length threshold - absolute (256,
